@@ -272,12 +272,30 @@ def add_component(W, d, di, spec):
     kind, name, seed = spec[0], spec[1], spec[2]
     if kind in ("f", "i", "c", "t"):
         d.add_component(values(kind, seed, d.shape), name)
-    elif kind == "C":   # categorical with an explicit category list: its own order, one unused category
+    elif kind == "C":
+        # categorical with an EXPLICIT category list, in every relation to the labels (the seed selects):
+        # the order of the list is information of its own — it fixes the codes, and with them every
+        # code-based selection — also when the list holds exactly the values that occur
         vals = values("c", seed, d.shape)
-        cats = sorted(set(vals.ravel().tolist()), reverse=True) + ["unused"]
-        if seed % 2:
-            cats = cats[::-1]
-        d.add_component(CategoricalComponent(vals, categories=np.array(cats)), name)
+        used = sorted(set(vals.ravel().tolist()))
+        variant = seed % 7
+        if variant == 0:
+            cats = used[::-1] + ["unused"]            # unsorted, an unused category at the end
+        elif variant == 1:
+            cats = ["unused"] + used                  # sorted, an unused category first
+        elif variant == 2:
+            cats = used[::-1]                         # unsorted, every category occurs
+        elif variant == 3:
+            cats = used[1:] + used[:1]                # rotated, every category occurs
+        elif variant == 4:
+            cats = list(used)                         # sorted, every category occurs (= what np.unique derives)
+        elif variant == 5:
+            cats = used[::-1] + used[:1]              # a category listed twice
+        else:
+            cats = used[:-1][::-1] if len(used) > 1 else list(used)   # a label that is not in the list (NaN code)
+        jitter = "uniform" if (seed // 7) % 3 == 1 else None          # state on the component that is not its values
+        units = [None, "m", "kg"][(seed // 21) % 3]
+        d.add_component(CategoricalComponent(vals, categories=np.array(cats), jitter=jitter, units=units), name)
     elif kind == "u":
         d.add_component(Component(values("f", seed, d.shape), units=["m", "km", "deg", "s"][seed % 4]), name)
     elif kind == "d":   # derived through ComponentLink arithmetic (BinaryComponentLink)
@@ -676,6 +694,13 @@ def digest(t):
     return "h:" + hashlib.blake2b(sx(t).encode(), digest_size=8).hexdigest()
 
 
+def _flag(c, attr):
+    try:
+        return bool(getattr(c, attr, False))
+    except Exception as e:      # e.g. Component.numeric looks at data[0]: an empty component has none
+        return "err:" + type(e).__name__
+
+
 def snapshot(dc, full_access=False):
     """Canonical observation of a DataCollection (what C02 says must survive)."""
     datasets = list(dc)
@@ -685,9 +710,18 @@ def snapshot(dc, full_access=False):
         for cid in d.components:
             c = d.get_component(cid)
             row = [tok(cid.label), comp_kind(c), tok(getattr(c, "units", None) or ""), safe_get(d, cid)]
+            # state that lives on the component but is not its values
+            row.append(["flags"] + [_flag(c, a) for a in ("numeric", "categorical", "datetime")])
             if isinstance(c, CategoricalComponent):
                 row.append(["cats"] + [tok(str(x)) for x in np.asarray(c.categories).tolist()])
-                row.append(["codes"] + [numtok(float(x)) for x in np.asarray(c.codes, dtype=float).ravel()])
+                codes = np.asarray(c.codes, dtype=float).ravel()
+                # `jitter('uniform')` adds fresh random numbers from [-0.5, 0.5) to the codes (also after a restore):
+                # the method and the fact that it is applied must survive, the un-jittered codes must be the same
+                jm = getattr(c, "jitter_method", None)
+                base = np.floor(codes + 0.5)
+                row.append(["jitter", tok(jm) if jm is not None else "N",
+                            bool(np.any(codes[np.isfinite(codes)] != base[np.isfinite(codes)]))])
+                row.append(["codes"] + [numtok(float(x)) for x in (base if jm is not None else codes)])
             comps.append(row)
         coords = "N" if d.coords is None else type(d.coords).__name__
         subsets = []
